@@ -21,6 +21,7 @@ type c21 struct {
 	dags       []*DAG
 	cancel     map[string]int // label -> step from which the caller may cancel
 	cancelled  map[string]bool
+	bcancel    map[string]int                // label -> step from which the responder's operator may cancel the response
 	pauseAt    map[graphsync.RequestID]int64 // responder pauses the response at this block (once)
 	pausedAt   map[graphsync.RequestID]int   // step at which it did
 	resumed    map[graphsync.RequestID]bool
@@ -33,7 +34,7 @@ type c21 struct {
 }
 
 func newC21() Scenario {
-	return &c21{cancel: map[string]int{}, cancelled: map[string]bool{}, pauseAt: map[graphsync.RequestID]int64{}, pausedAt: map[graphsync.RequestID]int{}, resumed: map[graphsync.RequestID]bool{}}
+	return &c21{cancel: map[string]int{}, bcancel: map[string]int{}, cancelled: map[string]bool{}, pauseAt: map[graphsync.RequestID]int64{}, pausedAt: map[graphsync.RequestID]int{}, resumed: map[graphsync.RequestID]bool{}}
 }
 
 func (s *c21) Name() string     { return "work-limits" }
@@ -74,6 +75,9 @@ func (s *c21) Build(w *World) {
 		s.reqs = append(s.reqs, r)
 		if t.Chance(150) {
 			s.cancel[r.Label] = t.Draw(60)
+		} else if t.Chance(150) {
+			// the responder's operator cancels this response while it runs
+			s.bcancel[r.Label] = t.Draw(60)
 		} else if t.Chance(200) {
 			// the responder pauses this response at a block and its operator resumes it later
 			s.pauseAt[r.ID] = int64(1 + t.Draw(3))
@@ -103,6 +107,19 @@ func (s *c21) Build(w *World) {
 					w.Probe("c21-cancel")
 					w.Effect("act %s %s ctxcancel", r.Node.Name, r.Label)
 					r.Cancel()
+				}))
+			}
+		}
+		for _, r := range s.reqs {
+			r := r
+			if at, ok := s.bcancel[r.Label]; ok && !s.cancelled[r.Label] && w.Step >= at && !r.Done() && s.runningAtB(r) {
+				evs = append(evs, Inject("api", "act|B|"+r.Label+"|bcancel", func(string) {
+					s.cancelled[r.Label] = true
+					w.Probe("c21-operator-cancel")
+					go func() {
+						err := s.b.GS.Cancel(context.Background(), r.ID)
+						w.Effect("act B %s cancel returned %v", r.Label, err)
+					}()
 				}))
 			}
 		}
@@ -247,4 +264,16 @@ func (s *c21) Final(w *World) *Violation {
 		}
 	}
 	return nil
+}
+
+// runningAtB: the responder has started processing the request.
+func (s *c21) runningAtB(r *Req) bool {
+	s.b.mu.Lock()
+	defer s.b.mu.Unlock()
+	for _, h := range s.b.Processing {
+		if h.Req == r.ID && h.Kind == "in-processing" {
+			return true
+		}
+	}
+	return false
 }
